@@ -2672,7 +2672,8 @@ impl Planner {
 
         let output_schema = self.derive_schema_from_columns(&columns);
 
-        let operator: Box<dyn Operator> = Box::new(HashJoinOperator::new(
+        let shared_right: Vec<usize> = build_keys.clone();
+        let mut operator: Box<dyn Operator> = Box::new(HashJoinOperator::new(
             left_op,
             right_op,
             probe_keys,
@@ -2680,6 +2681,22 @@ impl Planner {
             PhysicalJoinType::Left,
             output_schema,
         ));
+
+        // The right side binds the shared variables a second time. Keep only the left copy: in a
+        // row without a match every right column is NULL, but the variable itself is still bound.
+        if !shared_right.is_empty() {
+            let keep: Vec<usize> = (0..columns.len())
+                .filter(|&i| {
+                    i < left_columns.len() || !shared_right.contains(&(i - left_columns.len()))
+                })
+                .collect();
+            let projections: Vec<ProjectExpr> =
+                keep.iter().map(|&i| ProjectExpr::Column(i)).collect();
+            let kept_columns: Vec<String> = keep.iter().map(|&i| columns[i].clone()).collect();
+            let kept_schema = self.derive_schema_from_columns(&kept_columns);
+            operator = Box::new(ProjectOperator::new(operator, projections, kept_schema));
+            return Ok((operator, kept_columns));
+        }
 
         Ok((operator, columns))
     }
